@@ -18,7 +18,9 @@ Local Open Scope Z_scope.
 (* ------------------------------------------------------------------ basic types *)
 Inductive fault := FNone | FEof | FReset | FAgain.
 Inductive pstate := PVersion | PSecType | PAuth | PInit | PNormal | PInitShared.
-Inductive decision := DAccept | DHold | DRefuse.
+(* DNonblock is not a decision of the application: rfbSetNonBlocking fails on the new descriptor, the
+   connection never gets as far as newClientHook *)
+Inductive decision := DAccept | DHold | DRefuse | DNonblock.
 Inductive event := ENew (k : nat) | EGone (k : nat) | EClose (k : nat).
 
 (* what a connection can hold *)
@@ -858,8 +860,22 @@ Definition accept (d : decision) (pre : list Z) (peer_open : bool) (s : screen) 
     | DHold => updp k (pset_hold true) s4
     | DAccept => s4
     | DRefuse => connection_gone k (close_client k s4)
+    | DNonblock => s4
     end
   end.
+
+(* rfbSetNonBlocking(sock) fails - in rfbNewConnectionFromSock (sockets.c:117) or in rfbNewTCPOrUDPClient
+   (rfbserver.c:370, since commit e7275e4): rfbCloseSocket(sock); the record, the host string and the screen
+   reference taken just before are given back; return.  The connection was never listed, never in allFds,
+   newClientHook never ran: what remains is a descriptor closed exactly once. *)
+Definition dead_conn_rec (k : nat) : conn :=
+  mkConn (fd_of k) (mkLife true false 0 0 1)
+         (mkProto PVersion 0 false false false (-1) [] false false false 0 [] false false 0 0) [].
+Definition dead_conn (s : screen) : screen :=
+  let k := length (s_conns s) in
+  set_log (EClose k :: s_log s) (set_conns (s_conns s ++ [dead_conn_rec k]) s).
+Definition accept_or_fail (d : decision) (pre : list Z) (peer_open : bool) (s : screen) : screen :=
+  match d with DNonblock => dead_conn s | _ => accept d pre peer_open s end.
 
 (* ------------------------------------------------------------------ event loop *)
 Definition readable (s : screen) (k : nat) : bool :=
@@ -884,7 +900,7 @@ Definition check_fds (s : screen) : screen :=
   let rd := filter (readable s) (s_order s) in
   match (if s_listening s then s_pending s else []) with
   | (d, pre, po) :: rest =>
-    let s1 := accept d pre po (set_pending rest s) in
+    let s1 := accept_or_fail d pre po (set_pending rest s) in
     match rd with [] => s1 | _ => client_loop rd s1 end
   | [] =>
     match rd with [] => s | _ => client_loop rd s end
@@ -949,7 +965,7 @@ Inductive op :=
 Definition step (s : screen) (o : op) : screen :=
   if s_hung s || s_cleaned s then s else
   match o with
-  | OAccept d pre po => accept d pre po s
+  | OAccept d pre po => accept_or_fail d pre po s
   | OLAccept d pre po => set_pending (s_pending s ++ [(d, pre, po)]) s
   | OIn k b => updp k (fun p => if p_peer p then pset_inq (p_inq p ++ b) p else p) s
   | OPeerClose k => updp k (pset_peer false) s
